@@ -2,12 +2,12 @@ package c18
 
 import (
 	"bytes"
-	"os"
 	"encoding/hex"
 	"fmt"
 	"io"
 	"math/rand"
 	"net"
+	"os"
 	"strings"
 	"sync"
 	"time"
@@ -35,12 +35,12 @@ type frame struct {
 	Desc  string
 	Bytes []byte
 	// model
-	Ch       int32
-	Data     []byte
-	EOF      bool
-	IsMsg    bool
-	Invalid  bool // the model says the connection must end here
-	Unknown  bool // the model cannot predict (byte noise)
+	Ch      int32
+	Data    []byte
+	EOF     bool
+	IsMsg   bool
+	Invalid bool // the model says the connection must end here
+	Unknown bool // the model cannot predict (byte noise)
 }
 
 func delimited(b []byte) []byte {
